@@ -397,7 +397,7 @@ inductive Method
   | add | subtract | multiply | divide
   deriving DecidableEq, Repr
 
-def ofExcept : Except Err RGrid → Res
+def resOfExcept : Except Err RGrid → Res
   | .error e => .raises e
   | .ok r => .grid r
 
@@ -406,7 +406,7 @@ def ofExcept : Except Err RGrid → Res
 def rawBinary (self : G) (sh : List Nat) (md : Meta) (newId : MId) : Res :=
   match broadcast self.shape sh with
   | none => .raises .numpyBroadcast
-  | some rs => ofExcept (construct newId rs md)
+  | some rs => resOfExcept (construct newId rs md)
 
 /-- `add` / `subtract` methods; `mismatch` = which raise statement a spin mismatch hits -/
 def addSubMethod (mismatch : Err) (self : G) (other : Option Arg) : Res :=
@@ -441,11 +441,11 @@ def method (m : Method) (self : G) (other : Option Arg) : Res :=
     .grid { spin := -self.spin, nTheta := self.nTheta, nPhi := self.nPhi, lead := self.lead,
             extra := self.extra, metaId := .pre self.metaId, obj := .self }
   | .conjugate false | .bar =>
-    ofExcept (construct (.fresh 1) self.shape (self.meta.copyWith 0 (-self.spin)))
+    resOfExcept (construct (.fresh 1) self.shape (self.meta.copyWith 0 (-self.spin)))
   | .real | .imag =>
     if self.spin ≠ 0 then .raises .realImagSpin
-    else ofExcept (construct (.fresh 0) self.shape self.meta)
-  | .absolute => ofExcept (construct (.fresh 1) self.shape (self.meta.copyWith 0 0))
+    else resOfExcept (construct (.fresh 0) self.shape self.meta)
+  | .absolute => resOfExcept (construct (.fresh 1) self.shape (self.meta.copyWith 0 0))
   | .add => addSubMethod .spinMismatch self other
   | .subtract => addSubMethod .spinMismatchSubtract self other
   | .multiply => mulDivMethod true self other
